@@ -68,12 +68,15 @@ FilterKinds(f) == CASE f = "fuel" -> {"fuel"} [] f = "fuelcontrol" -> {"fuel", "
 Opt(r, f, c) == [rep |-> r, filter |-> f, byComp |-> c]
 
 ISum(s)  == FoldLeft(LAMBDA acc, x : acc + x, 0, s)
+\* TLC keeps [i \in S |-> e] as an unevaluated lambda and re-evaluates e at every application; concatenating the empty
+\* sequence turns it into an explicit tuple, evaluated once
+Concrete(s) == s \o <<>>
 Idx(s)   == 1..Len(s)
 
 (* ---------- eligibility and weights ---------- *)
 Elig(b, f)  == b.kind \in FilterKinds(f)
 CandPos(ms, f) == SelectSeq([i \in Idx(ms) |-> i], LAMBDA i : Elig(ms[i], f))     \* positions of the candidates
-Cand(ms, f) == LET ps == CandPos(ms, f) IN [j \in Idx(ps) |-> ms[ps[j]]]
+Cand(ms, f) == LET ps == CandPos(ms, f) IN Concrete([j \in Idx(ps) |-> ms[ps[j]]])
 WP(b, rep)  == IF rep = "FluxWeightedAverage" /\ b.w # 0 THEN b.w ELSE 1          \* p[weightingParam] or 1.0
 Wt(b, rep)  == WP(b, rep) * Vol(b)
 Refused(cs, rep) == rep = "FluxWeightedAverage" /\ (\E i \in Idx(cs) : cs[i].w # 0) /\ (\E i \in Idx(cs) : cs[i].w = 0)
